@@ -51,6 +51,8 @@ def call(b, f, c):
                     t = "Some(%du32.into())" % p["ty"][0] if p["ty"] else "None"
                     ps.append("TypeParameter::new_portable(%s.to_string(), %s)" % (json.dumps(p["name"]), t))
             return ".type_params(vec![%s])" % ", ".join(ps)
+        if m == "type_params_macro": return ".type_params(scale_info::type_params![%s])" % ", ".join(c["tys"])
+        if m == "named_type_params_macro": return ".type_params(scale_info::named_type_params![%s])" % ", ".join("(%s, %s)" % (a, b) for a, b in c["ps"])
         if m == "composite": return ".composite(%s%s)" % (fs_start(f, c["k"]), chain("FS", f, c["seq"]))
         if m == "variant": return ".variant(Variants::<%s>::new()%s)" % ("MetaForm" if f == "M" else "PortableForm", chain("VS", f, c["seq"]))
     if m in ("docs", "docs_always", "docs_portable"): return ".%s(%s)" % (m, docs_arg(m, f, c["d"]))
